@@ -663,6 +663,62 @@ func checkTrack(res *core.Result, log *core.Log, s *Scenario, ses *session, fixe
 	return verifyTrack(res, fixes, t.LineString, what, w.Buf)
 }
 
+// headerRecords: "its headers" for an arbitrary stream that was read to its end,
+// stated only as far as the IGC format itself defines an H record (the letter H,
+// a one-letter source, a three-character code of capitals and digits): in a
+// stream that begins with its A record, every line of that shape after it is
+// one returned header with that source and code, in the order of the lines;
+// and there are never more headers than lines beginning with H. Whether the
+// rest of a record (a date, say) is acceptable does not decide whether it is a
+// header. Nothing is said about streams with anything before the A record or
+// about H lines of another shape.
+func headerRecords(text []byte, got []igc.Header) string {
+	lines := strings.Split(string(text), "\n")
+	first := 0
+	for first < len(lines) && strings.TrimSuffix(lines[first], "\r") == "" {
+		first++
+	}
+	if first == len(lines) || !strings.HasPrefix(lines[first], "A") {
+		return ""
+	}
+	type sk struct{ source, key string }
+	var want []sk
+	hLines := 0
+	for _, ln := range lines[first+1:] {
+		ln = strings.TrimSuffix(ln, "\r")
+		if !strings.HasPrefix(ln, "H") {
+			continue
+		}
+		hLines++
+		if len(ln) < 5 || ln[1] < 'A' || ln[1] > 'Z' {
+			continue
+		}
+		ok := true
+		for _, c := range []byte(ln[2:5]) {
+			if !(c >= 'A' && c <= 'Z' || c >= '0' && c <= '9') {
+				ok = false
+			}
+		}
+		if ok {
+			want = append(want, sk{ln[1:2], ln[2:5]})
+		}
+	}
+	if len(got) > hLines {
+		return fmt.Sprintf("Read returned %d headers for a stream with %d lines that begin with H", len(got), hLines)
+	}
+	j := 0
+	for i, w := range want {
+		for j < len(got) && !(got[j].Source == w.source && got[j].Key == w.key) {
+			j++
+		}
+		if j == len(got) {
+			return fmt.Sprintf("Read returned the headers %v: H record %d of the stream (source %s, code %s) is not among them in its place", got, i, w.source, w.key)
+		}
+		j++
+	}
+	return ""
+}
+
 var dteLine = regexp.MustCompile(`^HFDTE(\d{6})$`)
 
 // checkHeaders: for a stream whose H records are all of the plain form
@@ -1113,6 +1169,17 @@ func faulty(s *Scenario, log *core.Log) core.Result {
 	if t.LineString.Stride() != 5 || t.LineString.Layout().Stride() != 5 || len(t.LineString.FlatCoords())%5 != 0 {
 		res.Fail("not-5d", "not-5d", "Read returned layout %s stride %d with %d ordinates", t.LineString.Layout(), t.LineString.Stride(), len(t.LineString.FlatCoords()))
 		return res
+	}
+	delivered := 0
+	for _, c := range r.Calls {
+		delivered += c.N
+	}
+	if r.Errs == 0 && !s.Read.StallForever && len(text) < 60000 && delivered <= len(text) {
+		// (what the decoder was given: the reader may end the stream early)
+		if d := headerRecords(text[:delivered], t.Headers); d != "" {
+			res.Fail("headers-differ", "headers-differ:records", "%s; stream:\n%s", d, head(text))
+			return res
+		}
 	}
 	if n := t.LineString.NumCoords(); n > possibleFixes && len(text) < 60000 {
 		// (lines beyond the scanner's token limit end the decode early; the
